@@ -489,6 +489,15 @@ def run(tier):
                 rsc.append(rf.scenario("rt-%d" % len(rsc), w, ["conn"] * len(w), [{"k": k, "o": o}], opts=dict(o2)))
                 rsc.append(rf.scenario("rt-%d" % len(rsc), w, ["conn"] * len(w), [{"k": 2, "o": "cutAfter"}, {"k": k + 2, "o": o}], opts=dict(o2)))
                 rsc.append(rf.scenario("rt-%d" % len(rsc), w, ["conn"] * len(w), [{"k": 2, "o": o}, {"k": 4, "o": o}, {"k": 6, "o": o}], opts=dict(o2)))
+    # "a cancelled caller context's error" through the reconnecting client's Connect: the context is cancelled while the
+    # loop is failing to establish the first connection -- after dial errors, refused CONNACKs, silent brokers, cut CONNECTs
+    oc = {"reconnBaseMs": 2, "reconnMaxMs": 5, "noReestablish": True}
+    for k in (2, 3, 4):
+        for plan in ({"connacks": [{"code": 5}] * 8}, {"connacks": [{"code": 2}, {"silent": True}] * 4}, {"dials": ["fail"] * 8},
+                     {"dials": ["ok", "fail"] * 4, "connacks": [{"code": 4}] * 8}):
+            sc_ = rf.scenario("cc-%d" % len(rsc), [], [], [], opts=dict(oc), **plan)
+            sc_["reqs"] += [{"k": "cancelconnect", "at": "dial:%d" % k}, {"k": "sleep", "ms": 20, "at": "conn"}, {"k": "disconnect", "at": "conn"}]
+            rsc.append(sc_)
     fam.execute(binary, rsc)
     evaluations += fam.stats["traces_validated"]
     # KeepAlive's error: "never reports a sentinel that is not in the chain" -- a ping that fails for another reason than
